@@ -135,25 +135,34 @@ pub fn script(m: u64, k: u64, broken: bool) -> String {
     let c0 = c_payload(m);
     let (c1, c2, c3) = (c0 + 1, c0 + 2, c0 + 3);
     let b = if broken { "let q: bool = 3;" } else { "" };
+    // The same seven identifiers play different roles in different versions, and dependent
+    // constants are declared before or after what they depend on: the process-wide interner
+    // orders identifiers by first appearance, so which versions were compiled before (or are
+    // being compiled concurrently) changes every identifier-ordered map inside the compiler.
+    let n = |role: u64| format!("Q{}", (role + k) % 7);
+    let (c, d, s, l, lt, o, rc) = (n(0), n(1), n(2), n(3), n(4), n(5), n(6));
+    let decl_c = format!("const {c}: Tr = mk({c0});");
+    let decl_d = format!("const {d}: Tr = {c};");
+    let (first, second) = if k % 2 == 1 { (decl_d, decl_c) } else { (decl_c, decl_d) };
     format!(
         r#"record Rec{k} {{ n: u64, t: Tr, s: String }}
-const C: Tr = mk({c0});
-const D: Tr = C;
-const S: String = "v{k}";
-const L: List[u64] = [{k}, {k}];
-const LT: List[Tr] = [mk({c1})];
-const O: Tr? = Some(mk({c2}));
-const RC: Rec{k} = Rec{k} {{ n: {k}, t: mk({c3}), s: "r{k}" }};
+{first}
+const {rc}: Rec{k} = Rec{k} {{ n: {k}, t: mk({c3}), s: "r{k}" }};
+{second}
+const {s}: String = "v{k}";
+const {l}: List[u64] = [{k}, {k}];
+const {lt}: List[Tr] = [mk({c1})];
+const {o}: Tr? = Some(mk({c2}));
 fn helper_{k}(x: u64) -> u64 {{ x * {k} }}
 fn opt_{k}() -> u64 {{
-    match O {{
+    match {o} {{
         Some(v) => val(v),
         None => 0,
     }}
 }}
-fn f(x: u64) -> u64 {{ {b} log(x); let part_{k} = helper_{k}(x); let rc = RC; part_{k} + val(C) + val(D) + val(K) + cap() + L.len() + LT.len() + opt_{k}() + rc.n + val(rc.t) }}
-fn s(a: String) -> String {{ let rc = RC; a + S + rc.s }}
-fn t(v: Tr) -> Tr {{ if val(v) > 5 {{ C }} else {{ v }} }}
+fn f(x: u64) -> u64 {{ {b} log(x); let part_{k} = helper_{k}(x); let rc = {rc}; part_{k} + val({c}) + val({d}) + val(K) + cap() + {l}.len() + {lt}.len() + opt_{k}() + rc.n + val(rc.t) }}
+fn s(a: String) -> String {{ let rc = {rc}; a + {s} + rc.s }}
+fn t(v: Tr) -> Tr {{ if val(v) > 5 {{ {c} }} else {{ v }} }}
 "#
     )
 }
